@@ -64,6 +64,9 @@ impl Table {
         let partitions = self.partitions.read().unwrap();
         let buffer = self.buffer.lock().unwrap();
         let mut partitions: Vec<_> = partitions.values().cloned().collect();
+        // (sync point inside the snapshot lock scope: flush and ingestion must not be able to run here)
+        #[cfg(locustdb_verif)]
+        crate::verif::gate("query:snapshot_partitions_read", &self.name);
         let mut offset = partitions.iter().map(|p| p.len()).sum::<usize>();
         if frozen_buffer.len() > 0 {
             let buffer = match column_filter {
@@ -218,6 +221,9 @@ impl Table {
             return None;
         }
         let buffer = std::mem::take(buffer.deref_mut());
+        // (sync point inside the frozen_buffer lock scope: a snapshot must not be able to run here)
+        #[cfg(locustdb_verif)]
+        crate::verif::gate("flush_table:buffer_taken", &self.name);
         let part_id = self.next_partition_id();
         let partition_offset = self
             .next_partition_offset
@@ -290,6 +296,9 @@ impl Table {
             for old_id in old_partitions {
                 partitions.remove(old_id);
             }
+            // (sync point inside the partitions write lock: a snapshot must not be able to run here)
+            #[cfg(locustdb_verif)]
+            crate::verif::gate("compact:swapping", &self.name);
             partitions.insert(id, Arc::new(partition));
         }
         for (id, column) in keys {
